@@ -10,8 +10,10 @@ pub mod c08;
 pub mod c09;
 pub mod c12;
 pub mod c14;
+pub mod c15;
 pub mod c16;
 pub mod c17;
+pub mod c18;
 pub mod c19;
 pub mod c20;
 
@@ -27,8 +29,10 @@ pub fn run(ctx: &Ctx) -> bool {
         "C09" => c09::run(ctx),
         "C12" => c12::run(ctx),
         "C14" => c14::run(ctx),
+        "C15" => c15::run(ctx),
         "C16" => c16::run(ctx),
         "C17" => c17::run(ctx),
+        "C18" => c18::run(ctx),
         "C19" => c19::run(ctx),
         "C20" => c20::run(ctx),
         _ => return false,
@@ -49,8 +53,10 @@ fn replay_one(ctx: &Ctx, sub: &str, input: &serde_json::Value) -> Option<Result<
         "C09" => c09::replay(ctx, sub, input),
         "C12" => c12::replay(ctx, sub, input),
         "C14" => c14::replay(ctx, input),
+        "C15" => c15::replay(ctx, sub, input),
         "C16" => c16::replay(ctx, sub, input),
         "C17" => c17::replay(ctx, sub, input),
+        "C18" => c18::replay(ctx, sub, input),
         "C19" => c19::replay(ctx, input),
         "C20" => c20::replay(ctx, sub, input),
         _ => return None,
